@@ -106,7 +106,7 @@ func indentOK(out []byte, indent string) string {
 }
 
 func runC18(cfg *config, res *monitor.Result) {
-	nvals := 4
+	nvals := 10
 	if cfg.thorough() {
 		nvals = 80
 	}
